@@ -735,4 +735,43 @@ func ruleTabCLI(c *Ctx, r *Rep) {
 		}
 	}
 	_ = orInstrs
+	// "nothing to do": the sequencing function gives up before planning, on account of the strategy word, only when the
+	// word is empty. The test the wrong way round would end every run that has a flag set, and nothing is ever generated.
+	if host, _, plan, _ := c.cliSteps(); host != nil && plan != nil {
+		strat := c.NamedType("generator/db", "UpdateStrategy")
+		n := 0
+		for _, b := range host.Blocks {
+			if plan.site.Block().Dominates(b) {
+				continue
+			}
+			ends := false
+			switch x := lastInstr(b).(type) {
+			case *ssa.Return:
+				ends = true
+			default:
+				_ = x
+			}
+			for _, ins := range b.Instrs {
+				if call, ok := ins.(*ssa.Call); ok && calleeFullName(call) == "os.Exit" {
+					ends = true
+				}
+			}
+			if !ends || strat == nil {
+				continue
+			}
+			for _, g := range guardsOf(b) {
+				bin, ok := g.Cond.(*ssa.BinOp)
+				if !ok || !types.Identical(bin.X.Type(), strat) {
+					continue
+				}
+				k, isK := bin.Y.(*ssa.Const)
+				if !isK || k.Value == nil || (bin.Op != token.EQL && bin.Op != token.NEQ) {
+					continue
+				}
+				n++
+				empty := k.Int64() == 0 && ((bin.Op == token.EQL && g.Truth) || (bin.Op == token.NEQ && !g.Truth))
+				r.Check(empty, sprintf("gives-up-only-without-flags|%s#%d", c.FuncKey(host), n), c.Pos(bin.Pos()), "an exit before planning that depends on the strategy word is taken when the word is empty", sprintf("%v", empty))
+			}
+		}
+	}
 }
